@@ -35,7 +35,27 @@ func Compare(t *Transaction, t2 *Transaction) compare.Order {
 			return o
 		}
 	}
-	return compare.Ordered(len(t.Postings), len(t2.Postings))
+	if o := compare.Ordered(len(t.Postings), len(t2.Postings)); o != compare.Equal {
+		return o
+	}
+	// the targets of a performance annotation are printed, so they take part in the order
+	for i := 0; i < len(t.Targets) && i < len(t2.Targets); i++ {
+		if o := commodity.Compare(t.Targets[i], t2.Targets[i]); o != compare.Equal {
+			return o
+		}
+	}
+	if o := compare.Ordered(len(t.Targets), len(t2.Targets)); o != compare.Equal {
+		return o
+	}
+	return compare.Ordered(annotated(t), annotated(t2))
+}
+
+// annotated tells an empty performance annotation (printed) from none.
+func annotated(t *Transaction) int {
+	if t.Targets != nil {
+		return 1
+	}
+	return 0
 }
 
 // Builder builds transactions.
